@@ -408,19 +408,50 @@ def log_message(i, size, dup=0):
     return head + 'm' * max(0, size - len(head))
 
 
-def emit_records(spec):
+LOG_NAMES = ('c20', 'c20.a', 'c20.b', 'c20.b.c', 'c20.quiet')
+
+
+def apply_parent_levels(cfg):
+    """cfg: {'parent_level': root level, 'named_levels': {logger name: level or 0 (= inherit)}}"""
     import logging
 
-    for i in range(spec['n']):
+    logging.getLogger().setLevel(cfg['parent_level'])
+    for name in LOG_NAMES:
+        logging.getLogger(name).setLevel(cfg['named_levels'].get(name, 0))
+
+
+def effective_level(name, cfg):
+    """the documented rule of the logging module, written out: own level if set, else the nearest ancestor's, else the root's"""
+    parts = name.split('.')
+    while parts:
+        lvl = cfg['named_levels'].get('.'.join(parts), 0)
+        if lvl:
+            return lvl
+        parts.pop()
+    return cfg['parent_level']
+
+
+def emit_records(spec, lo=0, hi=None):
+    import logging
+
+    for i in range(lo, spec['n'] if hi is None else hi):
         name = spec['names'][i % len(spec['names'])]
         lvl = spec['levels'][i % len(spec['levels'])]
         logging.getLogger(name).log(lvl, log_message(i, spec['size'], spec.get('dup', 0)))
 
 
-def log_target(spec):
+def log_target(spec, ev=None):
+    import logging
     import sys
 
-    emit_records(spec)
+    if ev is None:
+        emit_records(spec)
+    else:
+        # two phases: the parent changes its level settings between them (it has handled the marker by then)
+        emit_records(spec, 0, spec['n'] // 2)
+        logging.getLogger('c20.sync').critical('SYNC')
+        ev.wait(15)
+        emit_records(spec, spec['n'] // 2, None)
     if spec['tail'] == 'then_sleep':
         time.sleep(0.3)
     if spec['ending'] == 'raise':
@@ -460,8 +491,22 @@ def log_case(spec):
 
     mode = spec['mode']
     if mode == 'process':
-        p = mmp.Process(target=log_target, args=(spec,))
+        ev = None
+        if spec.get('phase2'):
+            import multiprocessing
+
+            ev = multiprocessing.get_context('spawn').Event()
+        p = mmp.Process(target=log_target, args=(spec, ev))
         p.start()
+        if ev is not None:
+            import logging
+
+            hs = [h for h in logging.getLogger().handlers if hasattr(h, 'records') and hasattr(h, 'slow_ms')]
+            t0 = time.monotonic()
+            while hs and not any(r[0] == 'c20.sync' for r in hs[0].records[-3:]) and time.monotonic() - t0 < 10:
+                time.sleep(0.005)
+            apply_parent_levels(spec['phase2'])
+            ev.set()
         try:
             r = p.result()
             out = ('value', r)
